@@ -309,6 +309,9 @@ mm_submit_job(struct mmgr *mm, int nocheck, int expect_err)
         IMB_JOB *r = (IMB_JOB *) mcall(cn, (void *) (nocheck ? mm->m->submit_job_nocheck : mm->m->submit_job),
                                        1, (uint64_t) mm->m);
         errno_check(mm, cn, expect_err);
+        if (g_abi_cov)
+                cov_hit("abi_lane_state", "%s|%s%s|q%d|%s", vn(mm), cn, errno_ctx, was > 17 ? 18 : was,
+                        r ? (r->status == IMB_STATUS_COMPLETED ? "completed" : "rejected") : "parked");
         errno_ctx[0] = 0;
         if (was >= IMB_MAX_JOBS) {
                 mm->n_full++;
@@ -342,6 +345,9 @@ mm_flush_job(struct mmgr *mm)
         int before = mm->count;
         IMB_JOB *r = (IMB_JOB *) mcall("flush_job", (void *) mm->m->flush_job, 1, (uint64_t) mm->m);
         errno_check(mm, "flush_job", 0);
+        if (g_abi_cov)
+                cov_hit("abi_lane_state", "%s|flush_job|%s|%s|q%d", vn(mm), r ? cipher_name(r->cipher_mode) : "-",
+                        r ? hash_name(r->hash_alg) : "-", before > 17 ? 18 : before);
         if (r == NULL) {
                 mm->n_flush_null++;
                 if (before != 0) {
